@@ -19,7 +19,12 @@ type scope struct {
 	oldHeap     map[string]Term
 	oldWorlds   []WorldState
 	inOld       bool
-	inQuant     bool // evaluating under a quantifier (bound variables in scope)
+	inQuant     bool            // evaluating under a quantifier (bound variables in scope)
+	headHeap    map[string]Term // back_edge_ensures: heap at the head of the iteration (head(e))
+	headWorlds  []WorldState
+	headCounts  map[string]int
+	headSyms    map[string]Term
+	inHead      bool // evaluating inside head(...)
 	preferLocal bool // local(x): an address-taken parameter is read from its cell (current value), not its entry value
 	world       int  // world index "W" refers to
 	nq          int
@@ -35,7 +40,7 @@ func (s *scope) addVars(m map[string]Val) {
 }
 
 func (s *scope) child() *scope {
-	n := &scope{vars: map[string]Val{}, extra: s.extra, oldHeap: s.oldHeap, oldWorlds: s.oldWorlds, inOld: s.inOld, inQuant: s.inQuant, world: s.world, nq: s.nq, pkg: s.pkg, preferLocal: s.preferLocal}
+	n := &scope{vars: map[string]Val{}, extra: s.extra, oldHeap: s.oldHeap, oldWorlds: s.oldWorlds, inOld: s.inOld, inQuant: s.inQuant, world: s.world, nq: s.nq, pkg: s.pkg, preferLocal: s.preferLocal, headHeap: s.headHeap, headWorlds: s.headWorlds, headCounts: s.headCounts, headSyms: s.headSyms, inHead: s.inHead}
 	for k, v := range s.vars {
 		n.vars[k] = v
 	}
@@ -659,6 +664,16 @@ func (x *Exec) evalCall(st *State, fr *Frame, e ECall, sc *scope) (Val, error) {
 			return x.lookupIdent(st, fr, id.Name, c)
 		}
 	}
+	if e.Fun == "head" && e.Recv == nil && len(e.Args) == 1 {
+		// head(e), in a per-iteration postcondition: e in the heap as it was when this iteration started
+		if sc.headHeap == nil {
+			return Val{}, fmt.Errorf("head(e) is only meaningful in a back_edge_ensures clause")
+		}
+		c := sc.child()
+		c.inOld, c.oldHeap, c.oldWorlds = true, sc.headHeap, sc.headWorlds
+		c.inHead = true
+		return x.evalSpec(st, fr, e.Args[0], c)
+	}
 	if e.Fun == "after" && e.Recv == nil && len(e.Args) == 2 {
 		// after("pattern", e): e evaluated in the heap as it was when the most recent call of a
 		// matching callee returned on this path
@@ -1050,17 +1065,21 @@ func (x *Exec) evalCall(st *State, fr *Frame, e ECall, sc *scope) (Val, error) {
 	case "ncalls":
 		// ncalls("pattern"): number of calls made so far on this path to callees matching the pattern
 		if lit, ok := e.Args[0].(EStr); ok && st != nil {
+			counts, syms := st.callCounts, st.callSyms
+			if sc.inHead && sc.headCounts != nil {
+				counts, syms = sc.headCounts, sc.headSyms // head(ncalls("f")): as of the start of this iteration
+			}
 			n := 0
-			for k, v := range st.callCounts {
+			for k, v := range counts {
 				if strings.HasPrefix(k, "n:") && matchCallee(lit.V, k[2:]) {
 					n += v
 				}
 			}
 			t := IntLit(int64(n))
 			// calls made in loop iterations that were cut away: one symbol per callee
-			for _, k := range sortedKeys(st.callSyms) {
+			for _, k := range sortedKeys(syms) {
 				if matchCallee(lit.V, k) {
-					t = App(SInt, "+", t, st.callSyms[k])
+					t = App(SInt, "+", t, syms[k])
 				}
 			}
 			return Val{T: t}, nil
